@@ -182,7 +182,7 @@ def run_worker(mod, cases, rundir, tag, timeout):
     env["PYTHONHASHSEED"] = "0"
     env["VERIF_REPO"] = REPO
     env.update(getattr(mod, "IMPL_ENV", {}))
-    rc, out = sh([PY, os.path.join(HARNESS, "impl_worker.py"), mod.ID, fin, fout], timeout,
+    rc, out = sh([PY, os.path.join(HARNESS, "impl_worker.py"), getattr(mod, "MODNAME", mod.ID.lower()), fin, fout], timeout,
                  cwd=rundir, env=env)
     if rc == 0 and os.path.exists(fout):
         r = json.load(open(fout))
@@ -317,6 +317,7 @@ def shrink(mod, item, rundir, bit, budget_s=60):
         if not better:
             break
         cur = min(better, key=lambda r: len(json.dumps(r["case"])))
+        cur["mod"] = mod
     return cur
 
 
@@ -327,7 +328,7 @@ def write_replay(mod, kind, item, extra=None):
     os.makedirs(rdir, exist_ok=True)
     h = chash(item["case"])[:12] if item else hashlib.sha1(json.dumps(extra, sort_keys=True).encode()).hexdigest()[:12]
     path = os.path.join(rdir, "%s-%s-%s.json" % (mod.ID, kind, h))
-    doc = {"property": mod.ID, "kind": kind}
+    doc = {"property": mod.ID, "kind": kind, "module": getattr(mod, "MODNAME", mod.ID.lower())}
     if item:
         doc.update(case=item["case"], impl_observation=item["obs"], verdict=item["verdict"],
                    region=item["region"], note=item.get("note"))
@@ -378,8 +379,12 @@ def run_check(prop, tier, replay=None):
         ok, blog = build()
     if pregen_err:
         broken.append(pregen_err)
+    mods = [mod] + [importlib.import_module("props." + m) for m in getattr(mod, "EXTRA", [])]
+    all_check_vo = []
+    for m_ in mods:
+        all_check_vo += list(getattr(m_, "CHECK_VO", []))
     prop_vo = "Properties/%s.v" % prop
-    needed = [prop_vo] + list(getattr(mod, "CHECK_VO", []))
+    needed = [prop_vo] + all_check_vo
     if not ok:
         missing = [n for n in needed if not vo_exists(n)]
         if missing:
@@ -397,7 +402,7 @@ def run_check(prop, tier, replay=None):
 
     # ---- 3. streams
     rng = random.Random("%d/%s/%s" % (seed, prop, tier))
-    checker_ok = all(vo_exists(v) for v in getattr(mod, "CHECK_VO", []))
+    checker_ok = all(vo_exists(v) for v in all_check_vo)
     stats = dict(evaluations=0, agree=0, disagreements=0, oracle_false=0, undecided=0, known=0)
     distinct = set()
     samples = []
@@ -409,35 +414,39 @@ def run_check(prop, tier, replay=None):
 
     if replay:
         doc = json.load(open(replay))
-        stream_list = [("replay", [doc["case"]] if "case" in doc else [], False)]
+        rmod = next((m_ for m_ in mods if getattr(m_, "MODNAME", m_.ID.lower()) == doc.get("module")), mod)
+        stream_list = [(rmod, "replay", [doc["case"]] if "case" in doc else [], False)]
     else:
         corpus = []
         for f in sorted(glob.glob(os.path.join(VERIF, "corpus", prop, "*.json"))):
             d = json.load(open(f))
             corpus += d["cases"] if "cases" in d else [d["case"]]
-        stream_list = ([("corpus", corpus, False)] if corpus else []) + list(mod.streams(tier, rng))
+        stream_list = ([(mod, "corpus", corpus, False)] if corpus else [])
+        for m_ in mods:
+            stream_list += [(m_, n_, c_, e_) for (n_, c_, e_) in m_.streams(tier, rng)]
 
     if not checker_ok:
         broken.append("model/checker .vo missing (%s): the correspondence cannot be evaluated" %
-                      ", ".join(v for v in getattr(mod, "CHECK_VO", []) if not vo_exists(v)))
+                      ", ".join(v for v in all_check_vo if not vo_exists(v)))
     else:
-        for name, cases, exhaustive in stream_list:
+        for smod, name, cases, exhaustive in stream_list:
             if not cases:
                 continue
-            res = evaluate(mod, cases, rundir, name)
+            res = evaluate(smod, cases, rundir, name)
             n_bad = 0
             for r in res:
                 stats["evaluations"] += 1
                 h = chash(r["case"])
-                if h not in distinct and mod.nontrivial(r["case"]):
+                r["mod"] = smod
+                if h not in distinct and smod.nontrivial(r["case"]):
                     distinct.add(h)
-                if hasattr(mod, "describe"):
-                    for k, v in mod.describe(r["case"]).items():
+                if hasattr(smod, "describe"):
+                    for k, v in smod.describe(r["case"]).items():
                         dist.setdefault(k, {}).setdefault(str(v), 0)
                         dist[k][str(v)] += 1
                 if r["verdict"] == 0:
                     stats["agree"] += 1
-                    if len(samples) < 3 and mod.nontrivial(r["case"]):
+                    if len(samples) < 3 and smod.nontrivial(r["case"]):
                         samples.append({"stream": name, "case": r["case"], "impl_observation": r["obs"],
                                         "model_observation": "equal to impl_observation (V_eqb)"})
                 else:
@@ -478,10 +487,11 @@ def run_check(prop, tier, replay=None):
     if failing:
         keep_rundir = False
         first = min(failing, key=lambda r: len(json.dumps(r["case"])))
-        small = shrink(mod, first, rundir, 1, budget_s=45 if tier == "quick" else 240)
-        small["model_observation"] = model_observation(mod, small["case"], rundir, obs=small["obs"])
-        path = write_replay(mod, "fails", small, {"model_observation": small["model_observation"],
-                                                  "failing_cases_this_run": len(failing)})
+        fm = first.get("mod", mod)
+        small = shrink(fm, first, rundir, 1, budget_s=45 if tier == "quick" else 240)
+        small["model_observation"] = model_observation(fm, small["case"], rundir, obs=small["obs"])
+        path = write_replay(fm, "fails", small, {"model_observation": small["model_observation"],
+                                                 "failing_cases_this_run": len(failing)})
         violations.append((path, ""))
     elif disagree or broken:
         # a broken proof/correspondence is not by itself a violation: search first
@@ -511,14 +521,15 @@ def run_check(prop, tier, replay=None):
             item = None
             if disagree:
                 item = min(disagree, key=lambda r: len(json.dumps(r["case"])))
-                item = shrink(mod, item, rundir, 2, budget_s=30)
-                item["model_observation"] = model_observation(mod, item["case"], rundir, obs=item["obs"])
+                im = item.get("mod", mod)
+                item = shrink(im, item, rundir, 2, budget_s=30)
+                item["model_observation"] = model_observation(im, item["case"], rundir, obs=item["obs"])
                 extra["correspondence"] = ("implementation and model (%s) differ on this case; the property "
-                                           "oracle is still true on the implementation's observation" % mod.CHECKER)
+                                           "oracle is still true on the implementation's observation" % im.CHECKER)
                 extra["model_observation"] = item["model_observation"]
                 extra["first_difference"] = first_diff(item["obs"], item["model_observation"])
                 extra["disagreeing_cases_this_run"] = len(disagree)
-            path = write_replay(mod, "broken", item, extra)
+            path = write_replay(item.get("mod", mod) if item else mod, "broken", item, extra)
             violations.append((path, " no-failing-input-found"))
 
     # ---- 5. thorough: independent re-check
